@@ -164,6 +164,20 @@ def handle (line : String) : Except String String := do
     let i := defaultQualifier asciiFns (← b "ts") st SqlglotModel.Generated.C10.defaultQualifierTagFirst
       ⟨← (← j.getObjVal? "name").getStr?, ← b "quoted"⟩
     return i.name ++ "\t" ++ toString i.quoted
+  | "ctes" =>
+    let jEnv (x : Json) : Except String CteEnv := do
+      (← x.getArr?).toList.mapM fun p => do
+        let a ← p.getArr?
+        if h : a.size = 2 then pure ((← a[0].getStr?), (← a[1].getNat?)) else throw "cte env"
+    let ops ← (← (← j.getObjVal? "ops").getArr?).toList.mapM fun o => do
+      let k ← (← o.getObjVal? "o").getStr?
+      match k with
+      | "branch" => pure (COp.branch (← (← o.getObjVal? "p").getNat?) (← jEnv (← o.getObjVal? "x")))
+      | "update" => pure (COp.update (← (← o.getObjVal? "s").getNat?) (← jEnv (← o.getObjVal? "d")))
+      | "resolve" => pure (COp.resolve (← (← o.getObjVal? "s").getNat?) (← (← o.getObjVal? "n").getStr?))
+      | _ => throw "cte op"
+    let res := crun SqlglotModel.Generated.C10.branchCopiesCteSources CState.root ops
+    return " ".intercalate (res.map (fun r => match r with | some k => toString k | none => "-"))
   | "qualify" =>
     let st ← jStrat (← j.getObjVal? "st")
     let σ ← (← (← j.getObjVal? "schema").getArr?).toList.mapM fun e => do
